@@ -13,7 +13,7 @@ EXTENDS Lifecycle, Json, IOUtils
 
 Log == ndJsonDeserialize(IOEnv.VF_TRACE)
 VARIABLE l
-tvars == <<slot, heap, model, nblk, err, stream, ops, l>>
+tvars == <<slot, heap, model, nblk, err, stream, ops, view, l>>
 
 IsEvent(e) == l <= Len(Log) /\ Log[l].e = e /\ l' = l + 1
 A == Log[l].args
@@ -26,10 +26,19 @@ MatchNext(o) ==
           /\ o.slots[s].ty = slot'[s].ty /\ o.slots[s].ext = slot'[s].ext /\ o.slots[s].size = slot'[s].size
           /\ \A i \in 1..Len(o.slots[s].vals) : model'[s][o.slots[s].vals[i].c] = o.slots[s].vals[i].v
           /\ Len(o.slots[s].vals) = Cardinality(DOMAIN model'[s])
+\* long-lived views: the driver's own bookkeeping of which views are still usable must agree with the specification's, and
+\* what was read through every usable view must be what the specification's storage holds
+MatchViews(o) ==
+  \A v \in ViewIds :
+     /\ o.views[v].st = view'[v].st
+     /\ (view'[v].st = "valid") =>
+          /\ Len(o.views[v].vals) = Cardinality(Box(view'[v].ext))
+          /\ \A i \in 1..Len(o.views[v].vals) : ViewCellsIn(heap', view'[v])[o.views[v].vals[i].c] = o.views[v].vals[i].v
 
 TInit == Init /\ l = 1
 TReset == IsEvent("Reset") /\ slot' = [s \in Slots |-> Dead] /\ heap' = [b \in BlkIds |-> [st |-> "unalloc", cells |-> <<>>]]
           /\ model' = [s \in Slots |-> <<>>] /\ nblk' = 0 /\ err' = "" /\ stream' = <<>> /\ ops' = 0
+          /\ view' = [v \in ViewIds |-> NoView]
 TStep ==
   \/ IsEvent("Construct") /\ Construct(A.s, A.ty, A.ext) /\ MatchNext(Log[l].after)
   \/ IsEvent("DefaultConstruct") /\ DefaultConstruct(A.s, A.ty, A.n) /\ MatchNext(Log[l].after)
@@ -43,7 +52,10 @@ TStep ==
   \/ IsEvent("Dump") /\ Dump(A.s) /\ MatchNext(Log[l].after)
   \/ IsEvent("Load") /\ Load(A.d) /\ MatchNext(Log[l].after)
   \/ IsEvent("Destroy") /\ Destroy(A.s) /\ MatchNext(Log[l].after)
-TNext == TReset \/ TStep
+  \/ IsEvent("MakeView") /\ MakeView(A.view, A.s) /\ MatchNext(Log[l].after)
+  \/ IsEvent("DropView") /\ DropView(A.view) /\ MatchNext(Log[l].after)
+  \/ IsEvent("WriteView") /\ WriteView(A.view, A.c, A.val) /\ MatchNext(Log[l].after)
+TNext == TReset \/ (TStep /\ MatchViews(Log[l].after))
 TSpec == TInit /\ [][TNext]_tvars
 
 Accepted == IF TLCGet("stats").diameter - 1 = Len(Log)
